@@ -97,6 +97,9 @@ func (buf *EventsBuffer) pushEvent(e *event, incompleteEventsList []*event, rech
 			incompleteEventsList = buf.getIncompleteEventsList()
 		}
 		for _, child := range incompleteEventsList {
+			if child.released {
+				continue // already handled (and reported released) through another parent
+			}
 			for _, parent := range child.event.Parents() {
 				if parent == eHash {
 					buf.pushEvent(child, incompleteEventsList, true)
